@@ -740,7 +740,7 @@ class QvmCode(BaseCode):
         # Assembling is the one place that knows them all, so try it.
         try:
             bytes(self)
-        except (struct.error, AssertionError, OverflowError):
+        except (struct.error, OverflowError):
             raise CompileError(
                 EC.PROGRAM_TOO_LARGE,
                 'Program too large: too many variables, array '
